@@ -728,6 +728,7 @@ func (f *Frame) execBlock(b *ssa.BasicBlock, st *State, r string) {
 			}
 			ref := c.newObject(st, r, "closure")
 			f.regs[i] = Val{T: ref, S: "Int", Fn: &FnRef{Fn: fn, Bindings: bs}, GT: i.Type()}
+			f.closureDefines(i, fn, ref, st, r)
 		case *ssa.Call:
 			f.regs[i] = f.execCall(i, st, &r)
 		case *ssa.RunDefers:
@@ -1182,4 +1183,50 @@ func (f *Frame) execNext(i *ssa.Next, st *State, r string) Val {
 	c.assumeTyped(st, r, v, m.Elem())
 	c.assumeTyped(st, r, kv, m.Key())
 	return Val{Tup: []Val{tv(ok, "Bool"), kv, v}}
+}
+
+// closureDefines assumes the `define F(self) == expr` clauses of a closure's contract at its creation.
+// This is a definitional extension: self is a fresh reference, F an uninterpreted spec function.
+// The captured variables mentioned must be assigned exactly once (checked syntactically).
+func (f *Frame) closureDefines(i *ssa.MakeClosure, fn *ssa.Function, ref string, st *State, r string) {
+	c := f.c
+	fc := c.eng.cs.Funcs[c.eng.keyOf[fn]]
+	if fc == nil || len(fc.Defines) == 0 {
+		return
+	}
+	for _, b := range i.Bindings {
+		a, ok := b.(*ssa.Alloc)
+		if !ok {
+			continue
+		}
+		stores := 0
+		for _, ref := range *a.Referrers() {
+			if s, ok := ref.(*ssa.Store); ok && s.Addr == ssa.Value(a) {
+				stores++
+			}
+		}
+		for _, blk := range fn.Blocks {
+			for _, ins := range blk.Instrs {
+				if s, ok := ins.(*ssa.Store); ok {
+					if fv, ok := s.Addr.(*ssa.FreeVar); ok && fv.Name() == a.Comment {
+						stores++
+					}
+				}
+			}
+		}
+		if stores > 1 {
+			c.errorf("captured variable %s of closure %s is assigned more than once; define clauses are unsound", a.Comment, c.eng.keyOf[fn])
+			return
+		}
+	}
+	ev := f.evalCtx(st, r)
+	ev.vars["self"] = SVal{T: ref, S: "Int"}
+	for _, d := range fc.Defines {
+		g, err := ev.evalBool(d.Expr)
+		if err != nil {
+			c.errorf("%s: define at closure creation: %v", d.Where, err)
+			continue
+		}
+		c.assume(r, g)
+	}
 }
